@@ -28,6 +28,12 @@ class Spec:
     def normalize(self, obs):
         return obs
 
+    def model_lines(self, case, impl_obs):
+        """lines to feed the model for this case (default: the case itself). A spec whose
+        model works on an abstraction of the implementation's state (abs(D)) derives its
+        model inputs from the implementation's observation here."""
+        return [case]
+
     def agree(self, case, impl_obs, model_obs):
         """does the implementation's observation agree with the model's?"""
         return self.normalize(impl_obs) == self.normalize(model_obs)
@@ -117,7 +123,15 @@ def run_spec(spec, tier, seed, replay=None):
         impl = vlib.run_lines([vlib.HARNESS_BIN, spec.harness_mode], cases, shards=spec.shards)
         if ok_m:
             log("%s: %d cases -> model" % (spec.pid, len(cases)))
-            model = vlib.run_lines([vlib.MODELRUN], cases)
+            mlines, midx = [], []
+            for i, c in enumerate(cases):
+                for ml in spec.model_lines(c, impl[i]):
+                    mlines.append(ml); midx.append(i)
+            mouts = vlib.run_lines([vlib.MODELRUN], mlines)
+            grouped = [[] for _ in cases]
+            for i, o in zip(midx, mouts):
+                grouped[i].append(o)
+            model = [" || ".join(g) for g in grouped]
             diffs = [i for i in range(len(cases)) if not spec.agree(cases[i], impl[i], model[i])]
             # oracle on the implementation's own observations (direct evaluation of
             # the property's decidable form on what the real code produced)
